@@ -269,6 +269,9 @@ func modelParseInLocation(ex *Exec, st *State, instr ssa.Instruction, args []Val
 	}
 	n := int64(layoutLen(toks))
 	slen := App("slen", SInt, s)
+	if kn, ok := ex.knownStrLen(st, s); ok {
+		slen = IntLit(kn)
+	}
 	// longer input: fractional seconds / trailing text rules are not modelled
 	if ex.decide(st, Gt(slen, IntLit(n))) {
 		return opaque()
